@@ -6,6 +6,44 @@ def preemptions(points, choices) -> int:
     return sum(1 for p, c in zip(points, choices) if p["running_enabled"] and c != 0)
 
 
+def explore_por(run_one, max_execs=None):
+    """All interleavings modulo commutation of independent transitions (sleep sets; no preemption bound - sleep sets and
+    bounding do not combine soundly). run_one(prefix, sleep_at) -> (controller, observation). Executions that turn out to be
+    equivalent to an explored one are cut ("sleep-blocked") and not yielded."""
+    stack = [([], None)]
+    n = 0
+    explore_por.capped = False
+    explore_por.pruned = 0
+    while stack:
+        prefix, sleep_at = stack.pop()
+        ctl, obs = run_one(prefix, sleep_at if sleep_at is not None else (-1, set()))
+        if ctl.choices[:len(prefix)] != prefix:
+            raise RuntimeError(f"divergence while replaying prefix {prefix}: executed {ctl.choices[:len(prefix)]}")
+        if ctl.aborted == "sleep-blocked":
+            explore_por.pruned += 1
+        else:
+            n += 1
+            yield prefix, ctl, obs
+        if max_execs is not None and n >= max_execs:
+            explore_por.capped = bool(stack)
+            break
+        for i in range(len(ctl.points) - 1, len(prefix) - 1, -1):
+            p = ctl.points[i]
+            asleep = set(p["sleep"] or [])
+            tids = p["enabled_tids"]
+            taken = ctl.choices[i]
+            explored = {tids[taken]}
+            for alt in range(len(tids)):
+                if alt == taken or tids[alt] in asleep:
+                    continue
+                stack.append((ctl.choices[:i] + [alt], (i, asleep | set(explored))))
+                explored.add(tids[alt])
+
+
+explore_por.capped = False
+explore_por.pruned = 0
+
+
 def explore(run_one, bound=None, max_execs=None):
     """run_one(prefix) -> (controller, observation).
 
